@@ -116,6 +116,8 @@ class SignTable:
                     return True
             if tn[0] == "and":
                 return all(recognised(x) for x in tn[1])
+            if tn[0] == "app" and tn[1] == "Not" and len(tn[2]) == 1:
+                return recognised(tn[2][0])
             return False
 
         for (t, v, w) in p.decisions:
